@@ -193,7 +193,12 @@ class Rotation(BaseOperation):
         atoms = context.atoms
 
         molecule = cast("Atoms", atoms[context._moving_indices])
-        phi, theta, psi = context.rng.uniform(0, 2 * np.pi, 3)
+        # `euler_rotate` expects degrees. A uniformly distributed orientation has
+        # uniform phi and psi and a uniform cos(theta).
+        u_phi, u_theta, u_psi = context.rng.uniform(0, 1, 3)
+        phi = 360.0 * u_phi
+        theta = np.degrees(np.arccos(1.0 - 2.0 * u_theta))
+        psi = 360.0 * u_psi
         molecule.euler_rotate(phi, theta, psi, center="COM")  # type: ignore
 
         return molecule.positions - context.atoms.positions[context._moving_indices]
